@@ -68,6 +68,10 @@ def lit_arg(rng, p, names=None):
     """A literal source argument for parameter p (never a register)."""
     r = rng
     if p.is_float:
+        if r.chance(0.12):
+            # very small / very large magnitudes (plain decimal notation: the language has no exponent syntax)
+            return r.pick(['0.000025', '-0.00000123', '0.0001', '30000000000000000.0', '-123456789012345680000.0', '16777216.0', '0.000000000000000000000000000000000000011754944',
+                           '340282350000000000000000000000000000000.0', '-0.0', '0.1', '1000000.0', '99999.99'])
         return repr(r.pick([0.0, 1.0, -1.0, 0.5, 2.5, 100.0, -3.25, 12345.5]))
     if p.is_string:
         return lit_string(r)
@@ -200,7 +204,9 @@ def gen_anm(rng, game, tables, nscripts=None, **kw):
 
 # ------------------------------------------------------------------------------------------------------ STD
 
-def fl(rng): return repr(rng.pick([0.0, 1.0, -1.0, 10.0, 20.5, -140.91132, 531.2044, 64.0, 6600.0]))
+def fl(rng):
+    if rng.chance(0.08): return rng.pick(['0.000025', '30000000000000000.0', '-0.0000001', '16777216.0', '-0.0'])
+    return repr(rng.pick([0.0, 1.0, -1.0, 10.0, 20.5, -140.91132, 531.2044, 64.0, 6600.0]))
 def vec(rng, n): return '[%s]' % ', '.join(fl(rng) for _ in range(n))
 
 def gen_std(rng, game, tables, **kw):
